@@ -181,7 +181,7 @@ PROPS = {
     },
     "C09": {
         "proofs": ["ZlProofs.Props.C09"],
-        "corr": ["der"],
+        "corr": ["der", "framework"],  # runAll_congr is about the framework model: results carry what the stages return, nothing derived from the object
         "search": ["c09"],
         "trusted_base": TB_COMMON,
         "assumptions": ["A-SELF: the parser sets SelfSigned only when issuer bytes = subject bytes (checked on every object)",
@@ -209,7 +209,7 @@ PROPS = {
     },
     "C06": {
         "proofs": ["ZlProofs.Props.C06"],
-        "corr": [],
+        "corr": ["framework"],  # framework_adds_only is a theorem about the framework model: NA, NE and fatal are all the wrapper adds
         "search": [("sweep", "C06")],
         "dyn_search": dyn_c06,
         "post": [post_observed_statuses],
@@ -331,7 +331,7 @@ CLAIMS = {
     },
     "C09": {
         "proofs": ["ZlProofs.Props.C09"],
-        "corr": ["der"],
+        "corr": ["der", "framework"],  # runAll_congr is about the framework model: results carry what the stages return, nothing derived from the object
         "search": ["c09"],
         "trusted_base": TB_COMMON,
         "assumptions": ["A-SELF: the parser sets SelfSigned only when issuer bytes = subject bytes (checked on every object)",
